@@ -235,3 +235,45 @@ pub fn area_invariants(areas: &[AreaView]) -> Option<String> {
 pub fn case_json(col: &crate::sup::Collector, k: u64, detail: serde_json::Value) -> serde_json::Value {
     serde_json::json!({"kind": "case", "prop": col.prop, "tier": col.tier.name(), "seed": col.seed, "k": k, "detail": detail})
 }
+
+/// Cheap view of the area list: data of the area starting at `skip` is not hashed (large heaps).
+#[derive(Clone, Debug, PartialEq, Eq)]
+pub struct Light {
+    pub start: u64,
+    pub length: u64,
+    pub access: u32,
+    pub data_len: u64,
+    pub hash: u64,
+}
+
+pub fn light_areas(ax: &Axecutor, skip: Option<u64>) -> Vec<Light> {
+    let lens: Vec<(u64, u64)> = ax.verif_area_lengths();
+    let mut v = Vec::new();
+    let mut i = 0;
+    ax.verif_for_each_area(|start, access, data| {
+        let length = lens.get(i).map(|x| x.1).unwrap_or(data.len() as u64);
+        i += 1;
+        let hash = if Some(start) == skip { 0 } else { hash_bytes(data) };
+        v.push(Light { start, length, access, data_len: data.len() as u64, hash });
+    });
+    v
+}
+
+pub fn light_invariants(areas: &[Light]) -> Option<String> {
+    for a in areas {
+        if a.data_len != a.length {
+            return Some(format!("area {:#x}: data.len() {} != length {}", a.start, a.data_len, a.length));
+        }
+        if a.start as u128 + a.length as u128 > 1u128 << 64 {
+            return Some(format!("area [{:#x},+{:#x}) wraps past 2^64", a.start, a.length));
+        }
+    }
+    let mut s: Vec<&Light> = areas.iter().collect();
+    s.sort_by_key(|a| a.start);
+    for w in s.windows(2) {
+        if w[0].length > 0 && w[1].length > 0 && w[0].start as u128 + w[0].length as u128 > w[1].start as u128 {
+            return Some(format!("areas overlap: [{:#x},+{:#x}) and [{:#x},+{:#x})", w[0].start, w[0].length, w[1].start, w[1].length));
+        }
+    }
+    None
+}
